@@ -15,7 +15,7 @@ RULE = (
     "geometric post-conditions (uniform scale, inside / covering, touching, alignment). Non-trivial = a complete viewBox."
 )
 BUDGET = {"quick": 62000, "thorough": 3100000}
-TIME_CAP = {"quick": 60, "thorough": 1500}
+TIME_CAP = {"quick": 240, "thorough": 1500}
 ANCHORS = ["Viewbox.viewbox_transform", "Viewbox.__init__", "Viewbox.set_viewbox", "Viewbox.property_by_values", "Viewbox.transform", "Length.str", "SVG.render", "SVG.property_by_values"]
 REQUIRED_MONITORS = ["matrix-vs-8.2", "geometric-postconditions", "through-parse", "incomplete-viewbox", "zero-viewbox"]
 
